@@ -592,4 +592,65 @@ def commentFollows : Chars → Bool
     if isBlank c then commentFollows cs
     else c == 35 || (c == 47 && (cs.head? == some 47 || cs.head? == some 42))
 
+/-! ### several lexers in one process
+
+    `lexer.New(input)` makes its OWN copy of the input (`[]rune(input)`); a program text with a
+    template string `'…{expr}…'` makes the parser create one more lexer (and parser) per
+    interpolated fragment while the outer parser is still at work, and a host may hold any number
+    of lexers at once.  The world below is the list of the live lexers; `GetLineText` of lexer `i`
+    reads lexer `i`'s copy. -/
+
+/-- a lexer as far as quoting a line is concerned: its copy of the input, and whether `Next`
+    has already produced the EOF token -/
+structure LexObj where
+  chars : Chars
+  atEOF : Bool
+  deriving DecidableEq, Repr
+
+/-- the lexers created so far, in creation order -/
+abbrev World := List LexObj
+
+/-- what can happen to a world: `lexer.New(input)`; reading lexer `i` to its EOF token; calling
+    `GetLineText` on lexer `i` (reads only) -/
+inductive WOp where
+  | new (input : Chars)
+  | drain (i : Nat)
+  | quote (i off : Nat) (eof : Bool)
+  deriving DecidableEq, Repr
+
+/-- mark lexer `i` as read to the end -/
+def markEOF : Nat → World → World
+  | _, [] => []
+  | 0, l :: ls => { l with atEOF := true } :: ls
+  | i + 1, l :: ls => l :: markEOF i ls
+
+/-- one operation on the world -/
+def World.step (w : World) : WOp → World
+  | .new input => w ++ [⟨input, false⟩]
+  | .drain i => markEOF i w
+  | .quote _ _ _ => w
+
+/-- the inputs the lexers were created with / hold -/
+def World.inputs (w : World) : List Chars := w.map (·.chars)
+
+/-- `GetLineText` of lexer `i` for a token starting at `off` (`[]` when there is no lexer `i`) -/
+def World.quote (w : World) (i off : Nat) (eof : Bool) : Chars :=
+  match w.inputs[i]? with
+  | some src => getLineText src off eof
+  | none => []
+
+/-- the operations a program text `outer` whose parse creates lexers for the template fragments
+    `frags` performs before an error of the OUTER parser is built: the outer lexer is created and
+    (because of the one-token lookahead) read to its EOF token, then one lexer per fragment is
+    created and read to the end -/
+def templateOps (outer : Chars) (frags : List Chars) : List WOp :=
+  [.new outer, .drain 0] ++ (frags.zipIdx.flatMap fun (f, k) => [.new f, .drain (k + 1)])
+
+/-- Spec of a quoted line in a world: it is the line of lexer `i`'s OWN input that the token's
+    offset lies on, verbatim (for a non-EOF token; `quoted_line_verbatim`) -/
+def worldQuoteOk (input : Chars) (off : Nat) (quoted : Chars) : Bool :=
+  match (splitLines input)[(posAt input off).line]? with
+  | some l => quoted == l
+  | none => false
+
 end Risor.C20
